@@ -861,3 +861,36 @@ def run(ctx):
     return dict(level="proof",
                 rule="one case = one C call (quat_lattice_lll / dim2 routine / sample_response) whose output is checked by "
                      "the proved Lean checker or compared with the Lean model, and by an independent exact oracle")
+
+
+def replay(ctx, rp):
+    """./check C16 --replay <file>: re-run the recorded op on the real code (fresh build) and re-evaluate the oracle"""
+    r = rp.get("replay", {})
+    op = r.get("op")
+    if not op:
+        print(json.dumps(rp, indent=1))
+        return 0
+    lvl = int(r.get("level", 1))
+    side = Side(ctx)
+    side.build((lvl,))
+    out = side.c(lvl, ["! 20 " + op])[0]
+    print("op      :", op[:400])
+    print("C output:", out[:800])
+    w = op.split()
+    if w[0] == "lll.run":
+        q, lat = unhx(w[1]), parse_mat(w[3:19])
+        ow = out.split()
+        if ow and ow[0] in ("0", "-1"):
+            ret = int(ow[0])
+            red = parse_mat(ow[1:17]) if ret == 0 else None
+            ok, why = lll_oracle(q, lat, ret, red)
+            print("oracle  :", "property holds" if ok else "PROPERTY VIOLATED: " + why)
+            if red is not None:
+                print("lean    :", side.lean(["lll.check %s %s %s %s" % (check_args(DELTA_CHK, ETA_CHK), hx(q), mat_hex(lat), mat_hex(red))])[0],
+                      "(0 = certificate accepted, 2 lattice changed, 3 not a basis, 4 not size-reduced, 5 Lovasz fails)")
+            return 0 if ok else 1
+        print("oracle  : PROPERTY VIOLATED: no result (%s)" % out[:40])
+        return 1
+    else:
+        print("model   :", (side.lean([op]) or ["?"])[0][:800] if not w[0].startswith("resp.") else "(see c_output; model needs the replayed draws)")
+    return 0
